@@ -44,6 +44,10 @@ pub enum AOp {
     AbortThenDetach(usize),
     /// a thread-style nested block_on of a small future that pends on a slot
     NestedBlockOn(usize),
+    /// join!(pend on slot a, blocking wait on slot b): within ONE poll the task registers its waker
+    /// for slot a and then sleeps in a nested block_on for slot b; a wake for a that arrives during
+    /// that sleep must still lead to another poll
+    JoinNested(usize, usize),
 }
 
 #[derive(Clone, Debug)]
@@ -137,6 +141,42 @@ impl Future for PendFut {
     }
 }
 
+struct JoinNested {
+    w: Arc<AWorld>,
+    sa: usize,
+    sb: usize,
+    a_done: bool,
+    b_done: bool,
+}
+impl Future for JoinNested {
+    type Output = ();
+    fn poll(mut self: Pin<&mut Self>, cx: &mut Context<'_>) -> Poll<()> {
+        if !self.a_done {
+            if *self.w.flags[self.sa].get() {
+                self.a_done = true;
+            } else {
+                *self.w.wakers[self.sa].get() = Some(cx.waker().clone());
+            }
+            body_event(A_INNER_POLL, self.sa as i64, self.a_done as i64);
+        }
+        if !self.b_done {
+            let w2 = self.w.clone();
+            let sb = self.sb;
+            sfuture::block_on(PendFut { w: w2, slot: sb });
+            self.b_done = true;
+        }
+        if !self.a_done && *self.w.flags[self.sa].get() {
+            // the flag was set while this poll was asleep in the nested block_on
+            self.a_done = true;
+        }
+        if self.a_done {
+            Poll::Ready(())
+        } else {
+            Poll::Pending
+        }
+    }
+}
+
 struct SelfWake(bool);
 impl Future for SelfWake {
     type Output = ();
@@ -216,6 +256,7 @@ fn run_atask(w: Arc<AWorld>, t: usize) -> Pin<Box<dyn Future<Output = i64> + Sen
                         drop(h);
                     }
                 }
+                AOp::JoinNested(sa, sb) => JoinNested { w: w.clone(), sa, sb, a_done: false, b_done: false }.await,
                 AOp::NestedBlockOn(s) => {
                     // a synchronous block_on inside a task: suspends this task while pending
                     let w2 = w.clone();
@@ -302,6 +343,15 @@ pub fn gen_prog(rng: &mut Rng, max_tasks: usize) -> AProg {
         for i in (1..pends.len()).rev() {
             pends.swap(i, rng.below(i + 1));
         }
+        // two pends of one task: sometimes as join!(pend a, blocking wait for b)
+        {
+            let idx: Vec<usize> = pends.iter().enumerate().filter(|(_, p)| matches!(p, AOp::Pend(_))).map(|(i, _)| i).collect();
+            if idx.len() >= 2 && rng.chance(1, 2) {
+                let (AOp::Pend(sa), AOp::Pend(sb)) = (pends[idx[0]].clone(), pends[idx[1]].clone()) else { unreachable!() };
+                pends[idx[0]] = AOp::JoinNested(sa, sb);
+                pends.remove(idx[1]);
+            }
+        }
         // occasionally pend through a nested block_on (only in main, which is a thread)
         if t == 0 && rng.chance(1, 4) {
             for p in pends.iter_mut() {
@@ -327,6 +377,25 @@ pub fn gen_prog(rng: &mut Rng, max_tasks: usize) -> AProg {
         }
     }
     AProg { tasks, slots, must_deadlock: false }
+}
+
+/// Terminating programs around a nested block_on inside a poll (wake for the outer pend arrives while
+/// the task sleeps in the nested block_on, from the same or from different tasks, in either order).
+fn nested_progs() -> Vec<AProg> {
+    vec![
+        AProg { tasks: vec![vec![AOp::Spawn(1), AOp::Wake(0), AOp::Wake(1), AOp::Await(1)], vec![AOp::JoinNested(0, 1)]], slots: 2, must_deadlock: false },
+        AProg { tasks: vec![vec![AOp::Spawn(1), AOp::Wake(1), AOp::Wake(0), AOp::Await(1)], vec![AOp::JoinNested(0, 1)]], slots: 2, must_deadlock: false },
+        AProg {
+            tasks: vec![vec![AOp::Spawn(1), AOp::Spawn(2), AOp::Spawn(3), AOp::Await(1), AOp::Await(2), AOp::Await(3)], vec![AOp::JoinNested(0, 1)], vec![AOp::Wake(0)], vec![AOp::Yield, AOp::Wake(1)]],
+            slots: 2,
+            must_deadlock: false,
+        },
+        AProg {
+            tasks: vec![vec![AOp::Spawn(1), AOp::Spawn(2), AOp::Yield, AOp::Wake(1), AOp::Await(1), AOp::Await(2)], vec![AOp::Add, AOp::JoinNested(0, 1), AOp::Yield], vec![AOp::Yield, AOp::Wake(0)]],
+            slots: 2,
+            must_deadlock: false,
+        },
+    ]
 }
 
 fn deadlock_progs() -> Vec<AProg> {
@@ -572,6 +641,11 @@ pub fn run(r: &mut Report) {
             items.push((p.clone(), k, rng.next()));
         }
     }
+    for p in nested_progs() {
+        for k in [0usize, 2, 5, 6] {
+            items.push((p.clone(), k, rng.next()));
+        }
+    }
     for i in 0..nprogs {
         let p = gen_prog(&mut rng, 1 + i % 5);
         for k in [0usize, 2, 5, 6] {
@@ -589,5 +663,5 @@ pub fn run(r: &mut Report) {
     for a in accs {
         a.merge_into(r);
     }
-    r.rule = "generated async programs (1-6 tasks in a spawn tree; per task: spawns, wakes of manual futures in other tasks, pends on hand-written futures whose wakers are held in shared slots, self-wakes during poll, yields, nested block_on; each child awaited / aborted then awaited / aborted twice / detached / aborted then detached) plus all-pending programs; every task's top-level future is wrapped so that every poll and every invocation of its waker (by user code, JoinHandle completion, yield, semaphores) is logged; per execution: no poll without a wake since the previous poll began, a wake at/after the last poll began is followed by another poll (else a deadlock/step-bound ending is a lost wake-up), JoinHandle yields the task's own output after completion or Cancelled only after an abort call with the future already dropped, no poll after abort() returned, output delivered once, detached tasks are not destroyed while main runs, terminating programs pass and all-pending ones are reported as deadlocks. evaluations = executions; distinct_nontrivial = distinct choice sequences with a real choice".into();
+    r.rule = "generated async programs (1-6 tasks in a spawn tree; per task: spawns, wakes of manual futures in other tasks, pends on hand-written futures whose wakers are held in shared slots, self-wakes during poll, yields, nested block_on, join of a pend with a blocking wait inside one poll; each child awaited / aborted then awaited / aborted twice / detached / aborted then detached) plus all-pending programs; every task's top-level future is wrapped so that every poll and every invocation of its waker (by user code, JoinHandle completion, yield, semaphores) is logged; per execution: no poll without a wake since the previous poll began, a wake at/after the last poll began is followed by another poll (else a deadlock/step-bound ending is a lost wake-up), JoinHandle yields the task's own output after completion or Cancelled only after an abort call with the future already dropped, no poll after abort() returned, output delivered once, detached tasks are not destroyed while main runs, terminating programs pass and all-pending ones are reported as deadlocks. evaluations = executions; distinct_nontrivial = distinct choice sequences with a real choice".into();
 }
